@@ -145,7 +145,28 @@ class FragGen:
         s += "."
         if self.rng.random() < 0.1:
             s += self.rng.choice([" ", "  ", "\n", "\n  "])
-        return s + ".".join(self.rng.choice(SEL_SEGS) for _ in range(self.rng.choice([1, 1, 1, 2, 2, 3])))
+        s += ".".join(self.rng.choice(SEL_SEGS) for _ in range(self.rng.choice([1, 1, 1, 2, 2, 3])))
+        if self.rng.random() < 0.25:
+            # `or` default: a select-level expression (token, parenthesis, list, set, another select)
+            if self.rng.random() < 0.15:
+                s += self.rng.choice(GAPS)
+                c, line = self.comment()
+                s += c + (("\n" + self.rng.choice(["", " ", "  "])) if line else self.rng.choice([" ", "  ", "\n  "]))
+            else:
+                s += self.rng.choice([" ", " ", " ", "  ", "\n", "\n  ", "\n\n    "])
+            s += "or" + self.rng.choice([" ", " ", " ", "  ", "\n  "])
+            r2 = self.rng.random()
+            if depth <= 0 or r2 < 0.5:
+                s += self.rng.choice(SEL_BASES)
+            elif r2 < 0.7:
+                s += self.paren(depth - 1)
+            elif r2 < 0.8:
+                s += self.lst(depth - 1)
+            elif r2 < 0.9:
+                s += self.attrset(depth - 1)
+            else:
+                s += self.select(depth - 1)
+        return s
 
     def leaf(self, depth: int) -> str:
         if self.rng.random() < self.p_sel:
